@@ -1,6 +1,7 @@
 package main
 
 import (
+	"sort"
 	"strings"
 	"fmt"
 	"go/token"
@@ -558,6 +559,75 @@ func ruleNoNondet(w *World, r *Report, pkg *ssa.Package) {
 	if n == 0 {
 		r.Ok(rule, "v2:no-clock-no-random", "-", fmt.Sprintf("no call into time, math/rand or crypto/rand in %d functions of the library", len(w.FuncsOf(pkg))))
 	}
+	// process-global switches of third-party packages: a call from the library
+	// into a function of another module that assigns a package-level variable of
+	// that module (directly or in a function it calls statically) makes later
+	// output depend on what was called before — e.g. yaml.FutureLineWrap()
+	// permanently changes how every later yaml.Marshal folds long strings.
+	setsGlobal := map[*ssa.Function]string{}
+	var sets func(f *ssa.Function, depth int) string
+	sets = func(f *ssa.Function, depth int) string {
+		if f == nil || f.Blocks == nil || depth > 2 {
+			return ""
+		}
+		if why, ok := setsGlobal[f]; ok {
+			return why
+		}
+		setsGlobal[f] = ""
+		why := ""
+		allInstrs(f, func(in ssa.Instruction) {
+			switch x := in.(type) {
+			case *ssa.Store:
+				if g, ok := x.Addr.(*ssa.Global); ok && why == "" {
+					why = "assigns the package variable " + g.Name() + " of " + g.Pkg.Pkg.Path()
+				}
+			case ssa.CallInstruction:
+				if why != "" {
+					return
+				}
+				if sf := staticCallee(x); sf != nil && fnPkg(sf) == fnPkg(f) {
+					if wv := sets(sf, depth+1); wv != "" {
+						why = wv
+					}
+				}
+			}
+		})
+		setsGlobal[f] = why
+		return why
+	}
+	mod := func(p *types.Package) string {
+		if p == nil {
+			return ""
+		}
+		path := p.Path()
+		if !strings.Contains(strings.SplitN(path, "/", 2)[0], ".") {
+			return "std"
+		}
+		return path
+	}
+	ng := 0
+	for _, fn := range w.FuncsOf(pkg) {
+		allInstrs(fn, func(in ssa.Instruction) {
+			c, ok := in.(ssa.CallInstruction)
+			if !ok {
+				return
+			}
+			sf := staticCallee(c)
+			if sf == nil || fnPkg(sf) == nil || fnPkg(sf) == pkg.Pkg {
+				return
+			}
+			m := mod(fnPkg(sf))
+			if m == "std" || strings.HasPrefix(m, "github.com/josephburnett/jd") {
+				return
+			}
+			ng++
+			if why := sets(sf, 0); why != "" {
+				r.Bad(rule, fmt.Sprintf("%s→%s:global-switch", fnName(fn), calleeFullName(c)), w.Pos(c.Pos()),
+					"the library calls "+calleeFullName(c)+", which "+why+": a process-wide setting is changed as a side effect, so the output of later calls depends on which calls came before")
+			}
+		})
+	}
+	r.Ok(rule, "v2:no-global-switch-of-dependencies", "-", fmt.Sprintf("%d calls into third-party packages examined: none assigns a package-level variable of its module", ng))
 }
 
 // cellAppendSorted: the store appends to the slice held in cell (a variable
@@ -713,4 +783,94 @@ func comparatorIsPlain(w *World, c ssa.CallInstruction, name string) bool {
 		}
 	})
 	return plain
+}
+
+// ruleNoSharedScratch — R-SCRATCH. No function of the library writes into
+// memory that belongs to a package-level variable (append onto, copy into,
+// indexed store into, or map update of a value loaded from a global) outside
+// the package initialiser. Shared scratch space makes the result of a call
+// depend on calls nested inside it or running beside it: a recursive hashCode
+// that builds its digest input in one package-level buffer has its outer
+// prefix overwritten by the inner call.
+func ruleNoSharedScratch(w *World, r *Report, pkg *ssa.Package, tag string) {
+	rule := "R-SCRATCH"
+	if tag != "v2" {
+		rule += "(" + tag + ")"
+	}
+	n := 0
+	var bad []string
+	for _, fn := range w.FuncsOf(pkg) {
+		if fn.Name() == "init" && fn.Parent() == nil {
+			continue
+		}
+		n++
+		fromGlobal := func(v ssa.Value) *ssa.Global {
+			for depth := 0; depth < 8; depth++ {
+				switch x := v.(type) {
+				case *ssa.Slice:
+					v = x.X
+				case *ssa.ChangeType:
+					v = x.X
+				case *ssa.Convert:
+					v = x.X
+				case *ssa.IndexAddr:
+					v = x.X
+				case *ssa.FieldAddr:
+					v = x.X
+				case *ssa.UnOp:
+					if x.Op != token.MUL {
+						return nil
+					}
+					if g, ok := x.X.(*ssa.Global); ok {
+						return g
+					}
+					v = x.X
+				case *ssa.Global:
+					return x
+				default:
+					return nil
+				}
+			}
+			return nil
+		}
+		ownGlobal := func(g *ssa.Global) bool { return g != nil && g.Pkg == pkg }
+		allInstrs(fn, func(in ssa.Instruction) {
+			switch x := in.(type) {
+			case *ssa.Store:
+				if _, direct := x.Addr.(*ssa.Global); direct {
+					if g := x.Addr.(*ssa.Global); ownGlobal(g) {
+						bad = append(bad, fmt.Sprintf("%s assigns the package variable %s at %s", fnName(fn), g.Name(), w.Pos(x.Pos())))
+					}
+					return
+				}
+				if g := fromGlobal(x.Addr); ownGlobal(g) {
+					bad = append(bad, fmt.Sprintf("%s stores into the package variable %s at %s", fnName(fn), g.Name(), w.Pos(x.Pos())))
+				}
+			case *ssa.MapUpdate:
+				if g := fromGlobal(x.Map); ownGlobal(g) {
+					bad = append(bad, fmt.Sprintf("%s updates the package-level map %s at %s", fnName(fn), g.Name(), w.Pos(x.Pos())))
+				}
+			case *ssa.Call:
+				b, ok := x.Call.Value.(*ssa.Builtin)
+				if !ok || len(x.Call.Args) == 0 {
+					return
+				}
+				switch b.Name() {
+				case "append", "copy":
+					if g := fromGlobal(x.Call.Args[0]); ownGlobal(g) {
+						if _, isSlice := x.Call.Args[0].Type().Underlying().(*types.Slice); isSlice {
+							bad = append(bad, fmt.Sprintf("%s %ss into the package-level buffer %s at %s", fnName(fn), b.Name(), g.Name(), w.Pos(x.Pos())))
+						}
+					}
+				}
+			}
+		})
+	}
+	sort.Strings(bad)
+	if len(bad) > 3 {
+		bad = bad[:3]
+	}
+	r.Check(len(bad) == 0, rule, tag+":no-writes-into-package-variables", "-",
+		fmt.Sprintf("none of the %d functions of the package writes into memory of a package-level variable after initialisation", n),
+		strings.Join(bad, "; ")+": state shared between calls — a nested or concurrent call overwrites what the outer call has built, so results depend on what else was computed")
 }
